@@ -181,7 +181,7 @@ def _classes(case):
 
 
 def shard(ctx):
-    ctx.given("tree", tree_cases(ctx.scale(3, 4)), ctx.scale(800, 20000), nontrivial=_nontrivial, classify=_classes)
+    ctx.given("tree", tree_cases(ctx.scale(3, 4)), ctx.scale(2500, 25000), nontrivial=_nontrivial, classify=_classes)
 
 
 def _has(case, pred):
@@ -208,6 +208,10 @@ KNOWN = {
     and _has(case, lambda s: s["cls"] == "Columns"),
     "C01-padding-relative-fixed": lambda sub, case, v: v.clause == "fixed-size"
     and _has(case, lambda s: s["cls"] == "Padding" and isinstance(s["width"], list)),
+    # calculate_bargraph_display builds a row wider than the graph for some two-segment data; Text then wraps it
+    "C01-bargraph-row-too-long": lambda sub, case, v: v.clause == "exception:BarGraphError@widget/bar_graph.py:render"
+    and "Invalid characters" in v.message
+    and _has(case, lambda s: s["cls"] == "BarGraph" and any(len(b) > 1 and b[1] > 0 for b in s["data"])),
     "C01-trimmed-cursor": lambda sub, case, v: v.clause == "cursor-inside"
     and _has(case, lambda s: s["cls"] in ("Pile", "Overlay")),
 }
